@@ -93,6 +93,41 @@ fn check_image_ctx(scene: &Scene, door: Door, kind: TargetKind, mode: u8, r: &mu
     if scene.tris.len() == 1 { r.h(&format!("single:{}:{}", clip_class(&scene.tris[0].v), if inside > 0 { "seen" } else { "unseen" })); }
 }
 
+/// The default context (back-face culling on) at large screen coordinates: a small front-facing triangle around a pixel
+/// centre far from the origin must be drawn there, the same triangle with reversed winding must leave the buffer alone.
+fn check_default_context_large(i: u64, r: &mut Report) {
+    r.eval();
+    let (bw, bh) = (2048u32, 3u32);
+    let cx = [2u32, 517, 1000, 1531, 2040, 2046][(i % 6) as usize];
+    let size = [0.75f32, 0.4, 0.2, 0.11][(i / 6 % 4) as usize];
+    let shape: [[f32; 2]; 3] = [[[-1.0, -0.7], [1.0, -0.6], [0.0, 1.0]], [[-1.0, 0.9], [0.1, -1.0], [0.9, 0.8]], [[-0.6, -1.0], [0.9, 0.2], [-0.8, 0.7]]][(i / 24 % 3) as usize];
+    let w = [1.0f32, 2.5][(i / 72 % 2) as usize];
+    let (pcx, pcy) = (cx as f32 + 0.5, 1.5f32);
+    let mut t = STri { v: std::array::from_fn(|k| { let (px, py) = (pcx + size * shape[k][0], pcy + size * shape[k][1]); [(px / 1024.0 - 1.0) * w, (py / 1.5 - 1.0) * w, 0.1 * w, w] }), a: PERMS[(i % 6) as usize] };
+    let s: Vec<[f64; 2]> = (0..3).map(|k| [(pcx + size * shape[k][0]) as f64, (pcy + size * shape[k][1]) as f64]).collect();
+    let mut area2 = (s[1][0] - s[0][0]) * (s[2][1] - s[0][1]) - (s[1][1] - s[0][1]) * (s[2][0] - s[0][0]);
+    let want_front = i / 144 % 2 == 0;
+    // convention (C07): positive on-screen signed area is a back face
+    if (area2 < 0.0) != want_front { t = STri { v: [t.v[0], t.v[2], t.v[1]], a: [t.a[0], t.a[2], t.a[1]] }; area2 = -area2; }
+    let _ = area2;
+    let scene = Scene { tris: vec![t.clone()], bw, bh, vp: (0, 0, bw, bh) };
+    let case = || obj! {"kind" => "default-ctx", "i" => i};
+    let tag = format!("default-context|x={cx}|size={size}|{}", if want_front { "front" } else { "back" });
+    let out = match render_scene(&scene, None, DOORS[(i % 3) as usize], [TargetKind::Owned, TargetKind::ColorOnly][(i / 3 % 2) as usize], &Context::default(), Discard::Never, None) { Ok(o) => o, Err(p) => { r.violation(format!("render-panic|{tag}"), p, case()); return; } };
+    let orc = Oracle::new(&scene);
+    let idx = (bw + cx) as usize; // pixel (cx, 1)
+    match orc.pixel(cx, 1) {
+        Truth::Inside { attr, .. } => {
+            let drawn = out.color[idx] != color_sentinel(idx);
+            if want_front && !drawn { r.violation(format!("inside-not-drawn|{tag}"), format!("front-facing triangle of {size} px around pixel ({cx},1) of a 2048-wide target was not drawn under the default context"), case()); return; }
+            if want_front && !((unpack(out.color[idx]) as f64 - attr).abs() <= 0.005) { r.violation(format!("attribute|{tag}"), format!("pixel ({cx},1): attribute {} expected {attr}", unpack(out.color[idx])), case()); return; }
+            if !want_front && (0..(bw * bh) as usize).any(|p| out.color[p] != color_sentinel(p)) { r.violation(format!("outside-written|{tag}"), format!("back-facing triangle of {size} px around pixel ({cx},1) was drawn under the default context (back-face culling)"), case()); return; }
+            r.nontrivial();
+        }
+        _ => r.h("default-context:centre-ambiguous"),
+    }
+}
+
 fn image_lattice(quick: bool) -> Vec<V4> {
     let (xy, z, w): (Vec<f32>, Vec<f32>, Vec<f32>) = if quick { (vec![-1.5, -0.35, 1.2], vec![-1.5, 0.4, 2.0], vec![-1.0, 0.5, 2.0]) }
         else { (vec![-2.0, -1.0, -0.35, 0.3, 1.0, 2.0], vec![-2.0, -0.5, 0.4, 1.0, 2.0], vec![-1.0, 0.5, 1.0, 2.0]) };
@@ -170,6 +205,7 @@ fn run_image(cfg: &Cfg) -> ! {
             if i % 5 == 2 { let dm = 1 + (i / 5 % 4) as u8; check_image_ctx(&scene, DOORS[(i / 7 % 3) as usize], KINDS[(i / 3 % 2) as usize], dm << 2, r); r.h("initial-depth-variant"); }
         }
     }));
+    rep.merge(par_range(cfg, 288, check_default_context_large));
     // painter scenes: triangles with pairwise disjoint depth ranges of their visible parts, back-to-front sorted, on a
     // colour-only target (and with the depth test off on a full one): the nearest triangle must still win
     let opool = order_pool();
@@ -188,7 +224,7 @@ fn run_image(cfg: &Cfg) -> ! {
     rep.sample(0, || obj! {"scene" => "single triangle [[-1.5,1.2,0.4,2],[1.2,-0.35,2,-1],[-0.35,-1.5,-1.5,0.5]] attrs (0,1,0.25), buffer 8x6, viewport x1..7 y2..5, door Batch, target SubView"});
     rep.sample(1, || obj! {"multi" => "ordered triples from a 24-triangle pool of visible triangles with distinct outcode signatures"});
     rep.finish(cfg, "exploration",
-        "scenes = every ordered vertex triple of a clip-space lattice (x,y,z,w incl. negative w; triangles whose plane passes through the clip-space origin filtered and counted) x attribute permutation x viewport/buffer family x front door {render, Batch, Camera} x target {Framebuf<Buf2>, Framebuf<MutSlice2> over strided sub-views of larger buffers, colour-only Buf2, colour-only strided MutSlice2 sub-view}; plus every ordered pair and triple from a 24-triangle pool; plus 1 in 16 scenes re-rendered with all clip coordinates scaled by 2^-20 and 2^7 (same image); plus one scene in six with the attribute carried by a Point2, Vec3, Color4f, (Vec2,f32) or Angle varying instead of f32; plus one multi-triangle scene in five with the depth buffer initialised to negative values, -0.0, f32::MIN or -infinity; plus painter scenes (pairs/triples of the C06 pool with disjoint visible depth ranges, BackToFront sort, colour-only target or depth test off). Oracle: independent f64 per-pixel reference (projective barycentric solve, nearest by 1/w) with the statement's ambiguity mask (16 probes at 0.03 px, internal fan edges from the public clip API, 0.1% depth ties): inside => attribute within 0.5% and 1/w within 0.2%, outside => sentinel colour and depth intact. non-trivial = scene with >=1 judged inside pixel that is clipped or multi-triangle.",
+        "scenes = every ordered vertex triple of a clip-space lattice (x,y,z,w incl. negative w; triangles whose plane passes through the clip-space origin filtered and counted) x attribute permutation x viewport/buffer family x front door {render, Batch, Camera} x target {Framebuf<Buf2>, Framebuf<MutSlice2> over strided sub-views of larger buffers, colour-only Buf2, colour-only strided MutSlice2 sub-view}; plus every ordered pair and triple from a 24-triangle pool; plus 1 in 16 scenes re-rendered with all clip coordinates scaled by 2^-20 and 2^7 (same image); plus one scene in six with the attribute carried by a Point2, Vec3, Color4f, (Vec2,f32) or Angle varying instead of f32; plus one multi-triangle scene in five with the depth buffer initialised to negative values, -0.0, f32::MIN or -infinity; plus small triangles (0.11 .. 0.75 px) in both windings around pixel centres up to x = 2046 of a 2048-wide target under the default context (back-face culling); plus painter scenes (pairs/triples of the C06 pool with disjoint visible depth ranges, BackToFront sort, colour-only target or depth test off). Oracle: independent f64 per-pixel reference (projective barycentric solve, nearest by 1/w) with the statement's ambiguity mask (16 probes at 0.03 px, internal fan edges from the public clip API, 0.1% depth ties): inside => attribute within 0.5% and 1/w within 0.2%, outside => sentinel colour and depth intact. non-trivial = scene with >=1 judged inside pixel that is clipped or multi-triangle.",
         &["attribute range is 1 (values 0, 0.25, 1)", "the fragment shader smuggles the attribute's bit pattern through the colour word", "initial depth = per-pixel distinct values < 3e-7"]);
 }
 
@@ -281,7 +317,8 @@ fn check_safety_camera(t: &[[f32; 3]], dims: (u32, u32), req: (u32, u32, u32, u3
     let case = || obj! {"kind" => "safety-camera", "verts" => J::Arr(t.iter().flatten().map(|x| fbits(*x)).collect()), "dims" => vec![dims.0, dims.1], "req" => vec![req.0, req.1, req.2, req.3]};
     let tag = format!("camera|{dims:?}|req{req:?}|{t:?}");
     let verts: Vec<Vertex<Point3<World>, f32>> = t.iter().map(|p| vertex(pt3(p[0], p[1], p[2]), 0.5)).collect();
-    let cam = match caught(|| Camera::new(dims).mode(Mat4x4::<RealToReal<3, World, View>>::identity()).viewport((req.0..req.2, req.1..req.3)).perspective(1.0, 1.0..1000.0)) { Ok(c) => c, Err(p) => { r.violation(format!("render-panic|camera-setup|{tag}"), format!("Camera::viewport({req:?}) on a {dims:?} frame panicked: {p}"), case()); return; } };
+    // (both builder orders, by parity of the request's origin: mode() then viewport(), and viewport() then mode())
+    let cam = match caught(|| { let id = Mat4x4::<RealToReal<3, World, View>>::identity(); if (req.0 + req.1) % 2 == 1 { Camera::new(dims).viewport((req.0..req.2, req.1..req.3)).mode(id).perspective(1.0, 1.0..1000.0) } else { Camera::new(dims).mode(id).viewport((req.0..req.2, req.1..req.3)).perspective(1.0, 1.0..1000.0) } }) { Ok(c) => c, Err(p) => { r.violation(format!("render-panic|camera-setup|{tag}"), format!("Camera::viewport({req:?}) on a {dims:?} frame panicked: {p}"), case()); return; } };
     let mut fb = Framebuf { color_buf: Buf2::<u32>::new_from(dims, (0..).map(|i| 0x7E57_0000 | i)), depth_buf: Buf2::<f32>::new_from(dims, (0..).map(|i| 1e-9 * (1 + i) as f32)) };
     let to_world: Mat4x4<RealToReal<3, World, World>> = Mat4x4::identity();
     if let Err(p) = caught(|| cam.render([Tri([0, 1, 2])], &verts, &to_world, &CamShader, (), &mut fb, &Context { face_cull: None, ..Context::default() })) { r.violation(format!("render-panic|camera|{tag}"), format!("Camera::render with an overhanging viewport request panicked: {p}"), case()); return; }
@@ -349,7 +386,7 @@ fn run_safety(cfg: &Cfg) -> ! {
     // absolute clip coordinates are most of a pixel outside at this scale and width
     {
         let mut pts: Vec<[f32; 3]> = vec![];
-        for z in [0.0015f32, 0.004, 0.1] { for x in [0.0f32, 0.5, -0.5, 1.0006, -1.0006, 1.0003] { for y in [0.0f32, 0.4, -1.0006, 1.0003] { pts.push([x * z, y * z, z]); } } }
+        for z in [0.0015f32, 0.004, 0.1, 0.95] { for x in [0.0f32, 0.5, -0.5, 1.0006, -1.0006, 1.0003, -0.9] { for y in [0.0f32, 0.4, -1.0006, 1.0003] { pts.push([x * z, y * z, z]); } } }
         let n = pts.len() as u64;
         let wide = [(2056u32, 3u32, (0u32, 0u32, 2048u32, 3u32)), (2056, 3, (8, 0, 2056, 3)), (3, 2056, (0, 0, 3, 2048)), (3, 2056, (0, 8, 3, 2056)), (2048, 2, (0, 0, 2048, 2))];
         rep.set("millimetre_scene_points", n);
@@ -492,7 +529,7 @@ fn explore_order(scene: &Scene, r: &mut Report, scene_id: u64, discard: Discard)
     // second clause: depth test off + back-to-front sort == depth-buffered image when depth ranges are disjoint
     // depth range of each triangle's visible part (triangles of which nothing is visible constrain nothing)
     let zr: Vec<Option<(f64, f64)>> = scene.tris.iter().map(|t| visible_screen_polygon(&t.v, scene.vp).map(|x| x.1)).collect();
-    let disjoint = (0..n).all(|i| (0..n).all(|j| i == j || match (zr[i], zr[j]) { (Some(a), Some(b)) => a.1 < b.0 * 0.999 || b.1 < a.0 * 0.999, _ => true }));
+    let disjoint = (0..n).all(|i| (0..n).all(|j| i == j || match (zr[i], zr[j]) { (Some(a), Some(b)) => a.1 < b.0 * 0.9999 || b.1 < a.0 * 0.9999, _ => true }));
     if disjoint {
         r.eval();
         let ctx = Context { depth_test: None, depth_sort: Some(DepthSort::BackToFront), ..ctx_plain() };
@@ -553,6 +590,10 @@ fn order_pool() -> Vec<STri> {
         // a write that is skipped because "the colour is already there" must still update depth
         STri { a: [0.0; 3], ..mk(f0, [1.5; 3], 0.0) },
         STri { a: [0.0; 3], ..mk([[-0.8, -0.9], [0.9, -0.6], [-0.2, 0.9]], [3.5; 3], 0.0) },
+        // layers 0.03 % behind #0 and behind #3 (the very near one): disjoint depth ranges whose summed clip z differs by
+        // less than 1/256 - a depth sort with a coarse key leaves them in submission order
+        mk(f0, [1.0003; 3], 0.33),
+        mk([[-0.5, -0.9], [0.7, 0.2], [-0.8, 0.7]], [0.15005; 3], 0.44),
     ]
 }
 
@@ -573,7 +614,7 @@ fn run_order(cfg: &Cfg) -> ! {
     });
     rep.set("scenes", ns);
     rep.finish(cfg, "model_checking",
-        "explicit-state search per scene of n<=4 (thorough <=6) triangles on an 8x8 Framebuf: state = (set of submitted triangles, colour buffer, depth buffer); transition = one real render() call with ANY non-empty ordered subset of the not yet submitted triangles x depth_sort in {None, FrontToBack, BackToFront}; states deduplicated on the full tuple; invariant in every state: each pixel holds colour and depth of the nearest (largest 1/w) submitted triangle covering it, where coverage, colour and stored depth per triangle come from solo renders (differential oracle), but WHICH triangle is nearest at a pixel - is decided by an independent f64 projective solve whenever the two differ by more than 1e-5 relative, and by the stored f32 depths (exact ties exempt) for closer calls; plus: depth test off + BackToFront == depth-buffered image for scenes with disjoint depth ranges; scenes of <= 3 triangles are explored a second time with a checkerboard-discarding fragment shader. Scenes: all 2-, 3- and 4-subsets (thorough: also all 5-subsets and two 6-subsets) of a 21-triangle pool with overlapping, identically coloured, interpenetrating, partially clipped, culled-away, clipped-away (past a frustum corner), behind-the-viewer, coincident-footprint and two-ulp-apart members; depth ranges for the painter clause are those of the exact visible parts.",
+        "explicit-state search per scene of n<=4 (thorough <=6) triangles on an 8x8 Framebuf: state = (set of submitted triangles, colour buffer, depth buffer); transition = one real render() call with ANY non-empty ordered subset of the not yet submitted triangles x depth_sort in {None, FrontToBack, BackToFront}; states deduplicated on the full tuple; invariant in every state: each pixel holds colour and depth of the nearest (largest 1/w) submitted triangle covering it, where coverage, colour and stored depth per triangle come from solo renders (differential oracle), but WHICH triangle is nearest at a pixel - is decided by an independent f64 projective solve whenever the two differ by more than 1e-5 relative, and by the stored f32 depths (exact ties exempt) for closer calls; plus: depth test off + BackToFront == depth-buffered image for scenes with disjoint depth ranges; scenes of <= 3 triangles are explored a second time with a checkerboard-discarding fragment shader. Scenes: all 2-, 3- and 4-subsets (thorough: also all 5-subsets and two 6-subsets) of a 23-triangle pool with overlapping, identically coloured, 0.03 %-apart, interpenetrating, partially clipped, culled-away, clipped-away (past a frustum corner), behind-the-viewer, coincident-footprint and two-ulp-apart members; depth ranges for the painter clause are those of the exact visible parts.",
         &["per-triangle coverage/depth taken from solo renders (validated separately by C01/C04/C05)", "depth test Less, depth writes on"]);
 }
 
@@ -881,6 +922,7 @@ fn main() {
                     let vp: Vec<u32> = c.get("vp").unwrap().as_arr().unwrap().iter().map(|x| x.as_u64().unwrap() as u32).collect();
                     check_safety(&t, SafetyCfg { proj: g("proj") as u8, bw: g("bw"), bh: g("bh"), vp: (vp[0], vp[1], vp[2], vp[3]), flags: g("flags"), sub: c.get("sub") == Some(&J::Bool(true)) }, r)
                 }
+                "default-ctx" => check_default_context_large(c.get("i").unwrap().as_u64().unwrap(), r),
                 "safety-camera" => {
                     let f: Vec<f32> = c.get("verts").unwrap().as_arr().unwrap().iter().map(|x| parse_fbits(x).unwrap()).collect();
                     let t: Vec<[f32; 3]> = f.chunks(3).map(|c| [c[0], c[1], c[2]]).collect();
